@@ -568,6 +568,36 @@ def run(ctx):
                 else:
                     chk.ok(R4, fun.qualname, f'meta dict at line {n.lineno}', detail='size/compressed/offset/length from the like-named columns', nontrivial=False)
 
+    # the progress wrapper put around input streams of the direct-to-pack path is a transparent proxy
+    cw = prog.cls('utils:CallbackStreamWrapper')
+    okw = True
+    why = ''
+    for mname, nargs in (('read', 1), ('seek', 2), ('tell', 0)):
+        mf = cw.methods.get(mname)
+        if mf is None:
+            okw, why = False, f'{mname}() missing'
+            break
+        params = [p_ for p_ in mf.params if p_ != 'self'][:nargs]
+        rets = [n for n in walk_local(mf.node) if isinstance(n, ast.Return) and n.value is not None]
+        if len(rets) != 1:
+            okw, why = False, f'{mname}() has {len(rets)} return statements'
+            break
+        v = rets[0].value
+        if isinstance(v, ast.Name):
+            asg = [a for a in walk_local(mf.node) if isinstance(a, (ast.Assign, ast.AugAssign, ast.AnnAssign)) and any(isinstance(t, ast.Name) and t.id == v.id for tt in ([a.target] if not isinstance(a, ast.Assign) else a.targets) for t in ast.walk(tt))]
+            if len(asg) != 1 or not isinstance(asg[0], ast.Assign):
+                okw, why = False, f'the value returned by {mname}() is modified after it was obtained from the wrapped stream'
+                break
+            v = asg[0].value
+        if not (isinstance(v, ast.Call) and isinstance(v.func, ast.Attribute) and v.func.attr == mname and norm(v.func.value) == 'self._stream'
+                and [norm(a) for a in v.args] + [norm(k.value) for k in v.keywords] == params):
+            okw, why = False, f'{mname}() does not return self._stream.{mname}({", ".join(params)}) unchanged (`{norm(v)[:60]}`)'
+            break
+    if okw:
+        chk.ok(R1, cw.qualname, 'read/seek/tell delegate unchanged', detail='the bytes written to the pack are exactly the bytes of the wrapped input stream')
+    else:
+        chk.bad(R1, cw.qualname, 'transparent proxy', f'the progress wrapper around input streams alters what the writer sees: {why}', where=f'{cw.module.relpath}:{cw.node.lineno}')
+
     # ---------------------------------------------------------------- R5 (read side)
     R5 = chk.rule('C01.R5', 'read side: rewinding the decompresser resets all decompression state (chunked re-reads return exactly the stored bytes)', 1)
     from .c07 import rewind_reset
